@@ -43,6 +43,10 @@ WRAPPED = ['"ok"', "'single'", '"', "'", "''", '""', '"a b"', "'a b'", "'a\"b'",
 PLANS = [["x"], ["x", "x"], ["x", "x", "x"], ["x", "p", "x"], ["p", "x", "x"], ["x", "o", "x"], ["x", "o", "p", "x", "x"], ["o", "x", "p", "o", "x"]]
 
 
+class _WitnessStale(Exception):
+    pass
+
+
 def enc(s):
     b = b"".join(ord(c).to_bytes(3, "big") for c in s)
     return b.hex() if b else "-"
@@ -68,6 +72,70 @@ def ref_split(line):
             cur += c
     if cur: segs.append(cur)
     return segs, adj
+
+
+def ref_quote(v):
+    """the console's quoting rule, written out independently of command_lexer.quote"""
+    if v != "" and not any(c in "'\" \r\n\t" for c in v): return v
+    if '"' not in v: return '"' + v + '"'
+    if "'" not in v: return "'" + v + "'"
+    return '"' + "".join("\\x22" if c == '"' else c for c in v) + '"'
+
+
+def ref_tokens(line):
+    """the lexer's cut, written as a scanner: a quoted string (to its closing quote or the end), a whitespace run, a run of other characters"""
+    toks, i, n = [], 0, len(line)
+    while i < n:
+        c = line[i]
+        if c in "'\"":
+            j = line.find(c, i + 1)
+            j = n - 1 if j < 0 else j
+        elif c in WS:
+            j = i
+            while j + 1 < n and line[j + 1] in WS: j += 1
+        else:
+            j = i
+            while j + 1 < n and line[j + 1] not in WS and line[j + 1] not in "'\"": j += 1
+        toks.append(line[i:j + 1]); i = j + 1
+    return toks
+
+
+_SIMPLE = {"\\": "\\", "'": "'", '"': '"', "a": "\a", "b": "\b", "f": "\f", "n": "\n", "r": "\r", "t": "\t", "v": "\v"}
+_HEX = "0123456789abcdefABCDEF"
+
+
+def ref_unescape(s):
+    """what a str parameter makes of the text (escape sequences interpreted one by one); None = the argument is refused.
+    Written as a scanner, independent of types._StrType."""
+    import unicodedata
+    out, i, n = [], 0, len(s)
+    while i < n:
+        c = s[i]
+        if c != "\\" or i + 1 >= n:
+            out.append(c); i += 1; continue
+        e = s[i + 1]
+        if e in _SIMPLE:
+            out.append(_SIMPLE[e]); i += 2; continue
+        if e in "01234567":
+            j = i + 1
+            while j < n and j < i + 4 and s[j] in "01234567": j += 1
+            out.append(chr(int(s[i + 1:j], 8))); i = j; continue
+        width = {"x": 2, "u": 4, "U": 8}.get(e)
+        if width is not None:
+            d = s[i + 2:i + 2 + width]
+            if len(d) == width and "\n" not in d:
+                if not all(ch in _HEX for ch in d): return None
+                v = int(d, 16)
+                if v > 0x10FFFF: return None
+                out.append(chr(v)); i += 2 + width; continue
+        if e == "N" and i + 2 < n and s[i + 2] == "{":
+            j = s.find("}", i + 3)
+            if j > i + 3:
+                try: out.append(unicodedata.lookup(s[i + 3:j]))
+                except (KeyError, ValueError): return None
+                i = j + 1; continue
+        out.append(c); i += 1
+    return "".join(out)
 
 
 def ref_unquote(seg):
@@ -184,57 +252,139 @@ class Check(PropertyCheck):
     def oracle(self, case, obs):
         fails = []
         for i, ex in enumerate(obs["execs"]):
-            fails += self._oracle_one(case, obs, ex)
+            fails += self._oracle_one(case, obs, ex, i)
             # every execution of the same line on the same manager must deliver the same arguments
             if ex != obs["execs"][0]:
                 fails.append("rerun: execution %d of %r gave %r, the first one %r" % (i + 1, obs["line"], ex, obs["execs"][0]))
         return fails
 
-    def _oracle_one(self, case, obs, ex):
+    def _oracle_one(self, case, obs, ex, run):
         fails = []
         if case["k"] == "args":
             # "Any string, quoted with the console's quoting rule and placed in a command line, is passed to the executed command unchanged"
             want = case["args"]
-            if ex[0] != "call" or ex[2] != want:
-                got = ex[2] if ex[0] == "call" else ex[0]
-                tags = set()
-                if ex[0] == "call" and len(ex[2]) == len(want):
-                    for w, g in zip(want, ex[2]):
-                        if w != g: tags.add(self._cause(case["ty"], w))
-                elif ex[0] == "badarg":
-                    tags = {self._cause(case["ty"], w) for w in want} - {"other"} or {"other"}
-                    if len(tags) > 1: tags.discard("other")
-                else:
-                    tags = {"other"}
-                tag = tags.pop() if len(tags) == 1 else "other"
-                fails.append("arg-changed[%s]: %r arrived as %r (line %r)" % (tag, want, got, obs["line"]))
+            if ex[0] == "call" and len(ex[2]) == len(want):
+                for j, (w, g) in enumerate(zip(want, ex[2])):
+                    if w != g: fails.append("arg-changed@%d#%d: argument %r arrived as %r (line %r)" % (run, j, w, g, obs["line"]))
+            elif ex[0] == "badarg":
+                fails.append("arg-changed@%d#badarg: %r refused (line %r)" % (run, want, obs["line"]))
+            else:
+                fails.append("arg-changed@%d#count: %r arrived as %r (line %r)" % (run, want, ex[2] if ex[0] == "call" else ex[0], obs["line"]))
         else:
             # "a command line's arguments are split exactly at unquoted whitespace"
             segs, adj = ref_split(case["line"])
             if ex[0] == "call":
                 n = 1 + len(ex[2])
                 if n != len(segs):
-                    fails.append("split[%s]: %r gives %d pieces, %d lie between unquoted whitespace" % ("adjacent" if adj else "other", case["line"], n, len(segs)))
+                    fails.append("split@%d: %r gives %d pieces, %d lie between unquoted whitespace" % (run, case["line"], n, len(segs)))
                 elif case["ty"] == "v" and not adj and ex[2] != [ref_unquote(s) for s in segs[1:]]:
-                    fails.append("split[other]: %r arguments %r are not the pieces %r" % (case["line"], ex[2], segs[1:]))
+                    fails.append("split-content@%d: %r arguments %r are not the pieces %r" % (run, case["line"], ex[2], segs[1:]))
             elif ex[0] == "nocmd":
-                if segs: fails.append("split[other]: %r has pieces %r but no command was found" % (case["line"], segs))
+                if segs: fails.append("split-nocmd@%d: %r has pieces %r but no command was found" % (run, case["line"], segs))
             elif ex[0] == "unknown":
                 if segs and ref_unquote(segs[0]) in ("t.s", "t.v"):
-                    fails.append("split[%s]: %r command name not recognised" % ("adjacent" if adj else "other", case["line"]))
+                    fails.append("split@%d: %r command name not recognised" % (run, case["line"]))
         return fails
 
     @staticmethod
-    def _cause(ty, w):
-        if ty == "s" and "\\" in w: return "str-backslash"
-        if ty == "v" and '"' in w and "'" in w: return "verbatim-both-quotes"
-        return "other"
+    def _delivered(ty, text):
+        """what a parameter of kind ty receives for the unquoted token text (None: refused)"""
+        return text if ty == "v" else ref_unescape(text)
 
     def known(self, case, obs, failure):
-        if failure.startswith("arg-changed[verbatim-both-quotes]"): return "F-C45a"
-        if failure.startswith("arg-changed[str-backslash]"): return "F-C45b"
-        if failure.startswith("split[adjacent]"): return "F-C45c"
-        return None
+        """a finding's id only when the failing clause AND the delivered values are the recorded ones (recomputed here from the
+        case and the observation with the harness's own quoting rule / scanner / unescape)"""
+        m = re.match(r"(arg-changed|split)@(\d+)(?:#(\w+))?:", failure)
+        if not m or not isinstance(obs, dict) or int(m.group(2)) >= len(obs.get("execs", [])): return None
+        kind, ex, ty = m.group(1), obs["execs"][int(m.group(2))], case["ty"]
+        if kind == "arg-changed":
+            if case["k"] != "args": return None
+            want, x = case["args"], m.group(3)
+            pred = [self._delivered(ty, ref_unquote(ref_quote(w))) for w in want]
+            if x == "badarg":
+                # F-C45b: a str argument with a backslash whose escape sequence the codec refuses
+                bad = [w for w, p in zip(want, pred) if p is None]
+                return "F-C45b" if ty == "s" and ex == ["badarg"] and bad and all("\\" in w for w in bad) else None
+            if x is None or not x.isdigit() or ex[0] != "call" or len(ex[2]) != len(want): return None
+            j = int(x); w, g = want[j], ex[2][j]
+            if j >= len(want) or g == w or g != pred[j]: return None
+            if ty == "v" and '"' in w and "'" in w and g == w.replace('"', "\\x22"): return "F-C45a"
+            if ty == "s" and "\\" in w: return "F-C45b"
+            return None
+        # F-C45c: the line has a quote touching a non-blank neighbour, and what arrived is exactly the lexer's finer cut
+        if case["k"] != "raw": return None
+        segs, adj = ref_split(case["line"])
+        toks = [t for t in ref_tokens(case["line"]) if t.strip(WS) != ""]
+        if not adj or not toks or len(toks) == len(segs): return None
+        name = ref_unquote(toks[0])
+        if name not in ("t.s", "t.v"): return "F-C45c" if ex == ["unknown"] else None
+        pred = [self._delivered("s" if name == "t.s" else "v", ref_unquote(t)) for t in toks[1:]]
+        if any(p is None for p in pred): return "F-C45c" if ex == ["badarg"] else None
+        return "F-C45c" if ex == ["call", name, pred] else None
+
+    def setup(self, tier):
+        self.known_selftest()
+
+    def known_selftest(self):
+        """positive witness + near misses for every recorded finding; a disagreement of known() with the expectations ends the
+        run as INFRA. The observations are taken from the tree under test: when a witness does not behave as recorded there
+        (a modified tree), its block is skipped — the runner reports the stale witness separately."""
+        for block in self._selftest_blocks():
+            try:
+                trip = block()
+            except _WitnessStale:
+                continue
+            for case, obs, failure, want in trip:
+                got = self.known(case, obs, failure)
+                assert got == want, ("known() selftest", failure, got, want)
+
+    def _selftest_blocks(self):
+        import copy
+
+        def witness(case, fid):
+            obs = self.impl(case); fails = self.oracle(case, obs)
+            if not fails or {self.known(case, obs, f) for f in fails} != {fid}: raise _WitnessStale(fid)
+            return obs, fails
+
+        def clean(case):
+            obs = self.impl(case)
+            if self.oracle(case, obs): raise _WitnessStale("clean")
+            return copy.deepcopy(obs)
+
+        def blk_a():
+            a = {"k": "args", "ty": "v", "args": ["both'\"q"]}; oa, fa = witness(a, "F-C45a")
+            t = []
+            o = copy.deepcopy(oa); o["execs"][0][2][0] = "both'q"                  # same input, a different corruption
+            t.append((a, o, fa[0], None))
+            t.append((a, oa, "rerun: execution 2 of ... gave ...", None))           # same input, other clause
+            n = {"k": "args", "ty": "v", "args": ["it's"]}; on = clean(n); on["execs"][0][2][0] = "it\\x27s"
+            t.append((n, on, "arg-changed@0#0: ...", None))                          # neighbouring input: one kind of quote only
+            return t
+
+        def blk_b():
+            b = {"k": "args", "ty": "s", "args": ["C:\\new"]}; ob, fb = witness(b, "F-C45b")
+            b2 = {"k": "args", "ty": "s", "args": ["\\xzz"]}; witness(b2, "F-C45b")
+            b3 = {"k": "args", "ty": "s", "args": ["\u00e9\\n"]}; ob3, fb3 = witness(b3, "F-C45b")
+            t = []
+            o = copy.deepcopy(ob3); o["execs"][0][2][0] = "\u00c3\u00a9\n"           # same input, the rest of the string mangled as well
+            t.append((b3, o, fb3[0], None))
+            n = {"k": "args", "ty": "s", "args": ["l'\u00e9t\u00e9 \"chaud\""]}; on = clean(n)
+            on["execs"][0][2][0] = "l'\u00c3\u00a9t\u00c3\u00a9 \"chaud\""
+            t.append((n, on, "arg-changed@0#0: ...", None))                          # neighbouring input: no backslash
+            o = copy.deepcopy(ob); o["execs"][0] = ["badarg"]
+            t.append((b, o, "arg-changed@0#badarg: ...", None))                      # same input, refused although every escape is valid
+            return t
+
+        def blk_c():
+            c = {"k": "raw", "ty": "v", "line": "t.v foo\"bar baz\""}; oc, fc = witness(c, "F-C45c")
+            t = []
+            o = copy.deepcopy(oc); o["execs"][0][2] = ["foo", "bar  baz"]
+            t.append((c, o, fc[0], None))                                            # same input, a different delivery
+            n = {"k": "raw", "ty": "v", "line": "t.v foo \"bar baz\""}; on = clean(n); on["execs"][0][2] = ["foo", "bar", "baz"]
+            t.append((n, on, "split@0: ...", None))                                  # neighbouring input: no quote touches a non-blank
+            t.append((c, oc, "split-content@0: ...", None))
+            return t
+        return [blk_a, blk_b, blk_c]
 
     # ------------------------------------------------------------------ model tie
     def model_lines(self, case):
